@@ -957,6 +957,10 @@ pub fn run(ctx: &Ctx, prop: &'static str) -> Report {
     let rt = runtime();
     if let Some(path) = &ctx.replay {
         let v: Value = serde_json::from_slice(&std::fs::read(path).expect("replay")).expect("json");
+        if v["replay"]["family"] == "node-keep-alive" {
+            crate::nodex::c09_node_level(ctx, &mut rep);
+            return rep;
+        }
         if v["replay"]["directed"] == "close-order" {
             directed_close_order(&mut rep, prop, v["replay"]["seed"].as_u64().unwrap_or(1));
             return rep;
@@ -1053,6 +1057,8 @@ pub fn run(ctx: &Ctx, prop: &'static str) -> Report {
         rep.floor("idle_phase_checks", 300);
         rep.floor("time_advances", 500);
         rep.floor("directed_non_keep_alive_traffic_scenarios", 8);
+        // layer b: real nodes over loopback TCP (the permit handling of the real connection task)
+        crate::nodex::c09_node_level(ctx, &mut rep);
     }
     rep
 }
